@@ -5,6 +5,7 @@ package memberlist
 // C17R — zero-downtime key rotation across a cluster (uses the same tap oracle).
 
 import (
+	"testing/synctest"
 	"crypto/aes"
 	"crypto/cipher"
 	"fmt"
@@ -418,8 +419,12 @@ func execC17R(c *Ctx) {
 					}
 				}
 				aa, tt := a, to
+				// one at a time up to its first park, so the arrival order at the write / dial
+				// yield sites (and with it the stable ids) does not depend on the Go scheduler
 				go func() { _ = aa.m.SendBestEffort(tt, []byte(m1)) }()
+				synctest.Wait()
 				go func() { _ = aa.m.SendReliable(tt, []byte(m2)) }()
+				synctest.Wait()
 				want = append(want, exp{b, m1}, exp{b, m2})
 			}
 		}
